@@ -263,6 +263,7 @@ def ownInner (v : DirV) : List Tok :=
 /-- the invariant of one direction -/
 structure Dir (v : DirV) (live : List Live) : Prop where
   sf : v.rq.self = v.p ∧ v.p < 2
+  co : ∀ c ∈ v.rq.ctlOut, c ∈ v.rq.completed
   ph : Phase (key v.rq) ∨ Accepted (key v.rq)
   idn : ((live.filter (fun ℓ => ℓ.p == v.p)).map (·.r.id)).Nodup
   lk : (live.filter (fun ℓ => ℓ.p == v.p)).map (·.r.id) =
